@@ -78,7 +78,7 @@ func universes(thorough bool) []*Universe {
 			// nested buckets as independent namespaces; key "x" doubles as plain key and bucket name
 			Name: "nesting", Locs: [][]string{locRoot, locX, locY, locXY}, Keys: []string{"a", "x"}, Vals: []string{"1"},
 			BNames: []string{"x", "y", ""}, Walk: true, CurDel: true,
-			MaxOps: 2, MaxEntries: pick(2, 3),
+			MaxOps: 2, MaxEntries: pick(2, 4),
 		},
 		{
 			// the whole alphabet, one operation per transaction
@@ -126,8 +126,17 @@ func Run(args []string) {
 	}
 	for i := 0; i < nWorkers; i++ {
 		w := &worker{id: i, g: g, path: scratchPath(i), nofl: i%2 == 0}
-		if err := w.setup(); err != nil {
+		opened, err := w.setup()
+		if err != nil && !opened {
 			ev.Fatal("worker %d: cannot create database: %v", i, err)
+		}
+		if err != nil {
+			// The file opened but plain committed Updates did not take
+			// effect: that is the property failing, not the harness.
+			g.viol["setup:committed-update-not-visible"] = &vrec{sig: "setup:committed-update-not-visible", count: 1,
+				msg: "preparing the database: " + err.Error(), replay: map[string]string{"stage": "setup", "error": err.Error()}}
+			g.notExh = append(g.notExh, "setup failed")
+			g.finish()
 		}
 		g.workers = append(g.workers, w)
 	}
